@@ -207,3 +207,71 @@ func VerifC15Keyword(k int) {
 		vFail("changing the letter case of a keyword changed its token type")
 	}
 }
+
+// VerifC15Long: fillers longer than the lexer's read buffer. The inserted blank run / line comment / block
+// comment has a length L that is symbolic in a window around a multiple of 4096 (the default bufio.Reader
+// size the lexer reads through), so that the filler starts before and ends after a buffer boundary at every
+// alignment; the gap is symbolic. Same oracle as VerifC15Source.
+func VerifC15Long(prog int, kind int, base int, span int) {
+	src := c15Corpus[prog]
+	toks := c15Lex(src)
+	core := c15Core(toks)
+	if len(core) < 2 {
+		return
+	}
+	g := vPick("gap", len(core)-1)
+	L := base + vPick("extra length", span)
+	bodyB := make([]byte, L)
+	for i := range bodyB {
+		bodyB[i] = 'x'
+		if kind == 0 {
+			bodyB[i] = ' '
+		}
+	}
+	body := string(bodyB)
+	filler := ""
+	switch kind {
+	case 0:
+		filler = body
+	case 1:
+		filler = " --" + body + "\n"
+	case 2:
+		vAssume(core[g].TokenType != MINUS)
+		filler = "--(" + body + ")--"
+	}
+	render := func(gap int, fill string) string {
+		s := ""
+		for i, t := range core {
+			s += src[t.Offset.Start:t.Offset.End]
+			if i == len(core)-1 {
+				break
+			}
+			if i == gap {
+				s += fill
+			} else {
+				s += " "
+			}
+		}
+		return s
+	}
+	canon := render(-1, "")
+	variant := render(g, filler)
+	vNote("source", src)
+	vNoteInt("gap", g)
+	vNoteInt("filler kind (0 blanks, 1 line comment, 2 block comment)", kind)
+	vNoteInt("filler length", L)
+	a := c15Core(c15Lex(canon))
+	tb, err := initLexer(strings.NewReader(variant)).getTokens()
+	if err != nil {
+		vFail("a program does not lex after whitespace/comments were inserted between two tokens")
+	}
+	b := c15Core(tb)
+	if len(a) != len(b) {
+		vFail("inserting whitespace/comments changed the token sequence")
+	}
+	for i := range a {
+		if a[i].TokenType != b[i].TokenType || a[i].Lexeme != b[i].Lexeme {
+			vFail("inserting whitespace/comments changed the token sequence")
+		}
+	}
+}
